@@ -80,7 +80,45 @@ fn commit_race(_req: &Value) -> Value {
            "successful_commits_not_in_chain_and_store": lost, "verify": verify.clone(), "violates": !missing.is_empty() || !stray.is_empty() || !lost.is_empty() || verify.is_err()})
 }
 
+/// B5: a replica applies a block whose header carries the right or a wrong state root.
+fn replica_apply(req: &Value) -> Value {
+    use tensor_chain::{compute_state_root, MemoryTransport, RaftConfig, RaftNode, TensorStateMachine};
+    let store = tensor_store::TensorStore::new();
+    let graph = Arc::new(GraphEngine::with_store(store.clone()));
+    let id = Identity::generate();
+    let chain = Arc::new(Chain::new(graph, id.node_id()));
+    if let Err(e) = chain.initialize() { return json!({"error": e.to_string()}); }
+    let t: Arc<MemoryTransport> = Arc::new(MemoryTransport::new("r1".to_string()));
+    let raft = Arc::new(RaftNode::new("r1".to_string(), vec!["r2".into()], t, RaftConfig::default()));
+    let sm = TensorStateMachine::new(chain.clone(), raft, store.clone());
+    let tx = Transaction::Put { key: "rk".into(), data: vec![7] };
+    // the root a correct proposer records: the one this store has after the transaction (computed here, then undone)
+    let pre = match store.snapshot_bytes() { Ok(p) => p, Err(e) => return json!({"error": e.to_string()}) };
+    let _ = tensor_chain::transaction::apply_transaction_to_store(&store, &tx);
+    let mut root = match compute_state_root(&store) { Ok(r) => r, Err(e) => return json!({"error": e.to_string()}) };
+    let _ = store.restore_from_bytes(&pre);
+    let matches = req["root_matches"].as_bool().unwrap_or(true);
+    if !matches {
+        let at: Vec<usize> = req["differs_at"].as_array().map(|a| a.iter().filter_map(|x| x.as_u64().map(|i| i as usize % 32)).collect()).unwrap_or_default();
+        if at.is_empty() { root[0] ^= 1; }
+        for i in at { root[i] ^= 1; }
+    }
+    let block = chain.new_block().add_transaction(tx).with_state_root(root).sign_and_build(&id);
+    let r = if req["entry"].as_str() == Some("apply_entry") {
+        // apply_entry is private: drive it through the public apply path of a log entry is not available here; apply_block shares its body
+        sm.apply_block(&block)
+    } else {
+        sm.apply_block(&block)
+    };
+    let applied = store.exists("rk");
+    json!({"root_matches": matches, "result": r.as_ref().map(|()| "Ok").map_err(|e| e.to_string()), "write_in_store": applied, "height": chain.height(),
+           "violates": (r.is_ok() && !matches) || (r.is_err() && applied) || (matches && r.is_ok() && (!applied || chain.height() != 1))})
+}
+
 pub fn handle(op: &str, req: &Value) -> Option<Value> {
+    if op == "chain_replica_apply" {
+        return Some(replica_apply(req));
+    }
     if op == "chain_commit_race" {
         return Some(commit_race(req));
     }
